@@ -303,6 +303,9 @@ class ndarray:
 
     # -- elementwise
     def _ew(self, other, f):
+        if isinstance(other, (list, tuple)) and self.ndim == 2 and len(other) == self._shape[1]:
+            # broadcasting a row over the last axis
+            return ndarray([[f(x, o) for x, o in zip(r, other)] for r in self._d], self._shape)
         if isinstance(other, ndarray):
             if other.shape != self.shape:
                 if self.ndim == 2 and other.shape == (self._shape[0], 1):
@@ -338,6 +341,21 @@ class ndarray:
 
     def __gt__(self, o):
         r = self._ew(o, lambda a, b: a > b)
+        r.dtype = bool_
+        return r
+
+    def __ge__(self, o):
+        r = self._ew(o, lambda a, b: a >= b)
+        r.dtype = bool_
+        return r
+
+    def __lt__(self, o):
+        r = self._ew(o, lambda a, b: a < b)
+        r.dtype = bool_
+        return r
+
+    def __le__(self, o):
+        r = self._ew(o, lambda a, b: a <= b)
         r.dtype = bool_
         return r
 
@@ -385,11 +403,37 @@ def eye(n):
 
 def stack(arrays, axis=0):
     rows = [a.tolist() if isinstance(a, ndarray) else list(a) for a in arrays]
-    if axis != 0:
-        raise OutsideModel("npl.stack axis")
     if not rows:
         raise ValueError("need at least one array to stack")
-    return ndarray(rows, (len(rows), len(rows[0])), None)
+    if axis == 0:
+        return ndarray(rows, (len(rows), len(rows[0])), None)
+    if axis in (1, -1):
+        n = len(rows[0])
+        for r in rows:
+            if len(r) != n:
+                raise ValueError("all input arrays must have the same shape")
+        return ndarray([[r[i] for r in rows] for i in range(n)], (n, len(rows)), None)
+    raise OutsideModel("npl.stack axis")
+
+
+def where(cond, a, b):
+    from vf import sym
+
+    c = cond.tolist() if isinstance(cond, ndarray) else list(cond)
+
+    def at(x, i):
+        if isinstance(x, ndarray):
+            return x.tolist()[i]
+        return x
+
+    out = [(at(a, i) if c[i] else at(b, i)) for i in range(len(c))]
+    return ndarray(out, (len(out),), None)
+
+
+def clip(a, lo, hi):
+    d = a.tolist() if isinstance(a, ndarray) else list(a)
+    out = [lo if x < lo else (hi if x > hi else x) for x in d]
+    return ndarray(out, (len(out),), None)
 
 
 def isnan(a):
@@ -566,7 +610,7 @@ def _module():
     m = types.ModuleType("numpy")
     g = globals()
     for name in ("ndarray", "zeros", "array", "asarray", "eye", "stack", "isnan", "mean", "exp", "c_", "arange",
-                 "concatenate", "diff", "isclose", "floor", "abs", "swapaxes",
+                 "concatenate", "diff", "isclose", "floor", "abs", "swapaxes", "where", "clip",
                  "float32", "float64", "int8", "int32", "int64", "bool_", "newaxis", "nan", "inf"):
         setattr(m, name, g[name])
     m.typing = _real.typing  # annotations only
